@@ -384,6 +384,67 @@ func runC03(w *vx.W) {
 			}
 		}
 	}
+	// a held message whose definition lists only field numbers the profile does not know (or a mix) is still a
+	// message of its type: it must land in its member as an all-invalid message, in order
+	for _, t := range fileTypes {
+		for _, sl := range hosts()[byte(t.Type)] {
+			k++
+			if !w.Mine(k) {
+				continue
+			}
+			var sym c03Sym
+			for _, a := range alpha {
+				if a.Mesg == sl.Mesg {
+					sym = a
+				}
+			}
+			ft := byte(t.Type)
+			unl := byte(0)
+			for f := 249; f > 0; f-- {
+				if _, listed := prof().fields[sl.Mesg][byte(f)]; !listed {
+					unl = byte(f)
+					break
+				}
+			}
+			dU := fitmodel.Def{Local: 9, Global: sl.Mesg, Fields: []fitmodel.FieldDef{{Num: unl, Size: 2, Base: fitmodel.Uint16}}}
+			recU := fitmodel.Concat(dU.Bytes(), fitmodel.Data(9, []byte{7, 7}))
+			rec1, want1 := c03Record(sym, 0, ft)
+			rec3, want3 := c03Record(sym, 2, ft)
+			parts := append(fitmodel.FileIdRecords(0, ft), rec1, recU, rec3, recU)
+			s := fitmodel.File(fitmodel.DefaultHeader, parts...)
+			res := safeDecode(bytes.NewReader(s))
+			w.Eval(1)
+			w.Trace(1)
+			w.Transition(4)
+			w.Fam("unlisted-fields-only", 1)
+			rep := c03Replay{ft, []string{sym.Name, sym.Name + " with only unlisted field " + fmt.Sprint(unl), sym.Name, sym.Name + " with only unlisted field"}, vx.Hex(s)}
+			if res.Err != nil || res.Panic != "" {
+				w.Violation("routing-unlisted-only/"+t.Name, fmt.Sprintf("%s file: decode fails: %v %s", t.Name, res.Err, res.Panic), rep)
+				continue
+			}
+			empty := newWant(sl.Mesg, ft)
+			wants := []reflect.Value{want1, empty, want3, empty}
+			got := messagesOf(res.File, sl.Mesg)
+			if sl.IsSlice {
+				if len(got) != 4 {
+					w.Violation("routing-unlisted-only/"+t.Name, fmt.Sprintf("%s file, member %s: 4 records (2 of them carrying only an unlisted field) give %d messages", t.Name, sl.Name, len(got)), rep)
+					continue
+				}
+			} else {
+				if len(got) != 1 {
+					w.Violation("routing-unlisted-only/"+t.Name, fmt.Sprintf("%s file, member %s: no message held", t.Name, sl.Name), rep)
+					continue
+				}
+				wants = wants[3:]
+			}
+			for i := range got {
+				if d := diffMsg(got[i], wants[i], compIgnore(got[i])); d != "" {
+					w.Violation("routing-unlisted-only/"+t.Name, fmt.Sprintf("%s file, member %s[%d]: %s", t.Name, sl.Name, i, d), rep)
+					break
+				}
+			}
+		}
+	}
 	// all 256 file-type bytes: Decode and NewFile
 	for b := 0; b < 256; b++ {
 		if !w.Mine(int64(b)) {
